@@ -336,6 +336,34 @@ func genScript(rng *rand.Rand, cfg *config, h0 types.Height, nH int) []input {
 			perHeight[hi-1] = append(prev[:pos:pos], append([]input{m}, prev[pos:]...)...)
 		}
 	}
+	// the whole deciding material of the next height (proposal, prevotes, two precommits)
+	// arriving before the current height is decided: the node then decides the next
+	// height inside the very batch that starts it
+	for hi := 1; hi < len(perHeight); hi++ {
+		if rng.IntN(3) != 0 {
+			continue
+		}
+		h := h0 + types.Height(hi)
+		p := cfg.proposerIdx(h, 0)
+		if p == cfg.Me {
+			continue
+		}
+		val := valRef{Fixed: peerVal(h, 0, 0, false)}
+		early := []input{{Kind: kProposal, H: h, R: 0, From: p, VR: -1, Val: val}}
+		for i, pe := range peers {
+			early = append(early, input{Kind: kPrevote, H: h, R: 0, From: pe, Val: val})
+			if i < 2 {
+				early = append(early, input{Kind: kPrecommit, H: h, R: 0, From: pe, Val: val})
+			}
+		}
+		rng.Shuffle(len(early), func(i, j int) { early[i], early[j] = early[j], early[i] })
+		prev := perHeight[hi-1]
+		pos := 0
+		if len(prev) > 0 {
+			pos = rng.IntN(len(prev)) // before the last message of the previous height
+		}
+		perHeight[hi-1] = append(prev[:pos:pos], append(early, prev[pos:]...)...)
+	}
 	var out []input
 	for _, f := range perHeight {
 		out = append(out, f...)
